@@ -88,6 +88,8 @@ pub struct State {
     pub write_limit: usize,
     /// some fault rule names K::Read: opened files consult the fault plan on every read
     pub read_faults: bool,
+    /// (thread, path) of the reads seen while `read_faults` is on
+    pub reads: Vec<(String, String)>,
 }
 
 #[derive(Clone)]
@@ -187,6 +189,9 @@ impl SimDir {
     pub fn faults_fired(&self) -> usize {
         self.st.lock().unwrap().faults_fired.len()
     }
+    pub fn take_reads(&self) -> Vec<(String, String)> {
+        std::mem::take(&mut self.st.lock().unwrap().reads)
+    }
     pub fn set_write_limit(&self, limit: usize) {
         self.st.lock().unwrap().write_limit = limit;
     }
@@ -210,6 +215,11 @@ impl SimDir {
     }
     pub fn gate_reached(&self, gate: usize) -> bool {
         self.st.lock().unwrap().gates[gate].reached
+    }
+    /// the gate was reached and its thread is still held there
+    pub fn gate_pending(&self, gate: usize) -> bool {
+        let st = self.st.lock().unwrap();
+        st.gates[gate].reached && !st.gates[gate].done
     }
     pub fn release(&self, gate: usize) {
         let mut st = self.st.lock().unwrap();
@@ -273,6 +283,10 @@ impl SimDir {
         let thread = thread_name();
         let mut st = self.st.lock().unwrap();
         st.op_count += 1;
+        if kind == K::Read {
+            let entry = (thread.clone(), path.to_string_lossy().to_string());
+            st.reads.push(entry);
+        }
         // faults
         let mut fail = false;
         if !st.faults.is_empty() {
